@@ -8,10 +8,10 @@ Open Scope Z_scope.
 (* ---- unfolding calc_pkt ---- *)
 Lemma calc_pkt_msg : forall fx addr args,
   calc_pkt fx (AList (AStr addr :: args)) =
-  if negb (is_ascii addr) then Err EValue
+  if negb fx && negb (is_ascii addr) then Err EValue
   else calc_vals fx args >>= fun v => Ok (strpad4 (zlen addr) + strpad4 (zlen args + 1) + v).
 Proof.
-  intros fx addr args. cbn [calc_pkt]. destruct (negb (is_ascii addr)); [reflexivity |].
+  intros fx addr args. cbn [calc_pkt]. destruct (negb fx && negb (is_ascii addr)); [reflexivity |].
   f_equal. induction args as [| x r IH]; [reflexivity |].
   cbn [calc_vals]. rewrite <- IH. reflexivity.
 Qed.
@@ -178,7 +178,7 @@ Proof.
     specialize (Hub' u Hu).
     assert (Hcs : calc_pkt true e = Ok s).
     { destruct Hshape as [(addr & args & ->) | (sub & tag & es & -> & _)]; [exact Hs |].
-      cbn [calc_elem] in Hs. destruct sub; [exact Hs | discriminate Hs]. }
+      cbn [calc_elem orb] in Hs. exact Hs. }
     specialize (Hub s Hcs). lia.
 Qed.
 
@@ -199,7 +199,7 @@ Proof.
       destruct (sized_vals nc tl targs v Htl Hwtl Hc Hv) as [Hal Hub].
       rewrite Hlen. split.
       * apply add_aligned; [apply add_aligned; apply strpad4_aligned | exact Hal].
-      * intros n Hn. rewrite calc_pkt_msg in Hn. destruct (negb (is_ascii addr)); [discriminate Hn |].
+      * intros n Hn. rewrite calc_pkt_msg in Hn. cbn [negb andb] in Hn.
         apply bind_ok in Hn as (u & Hu & Hn). inv_ok Hn. specialize (Hub u Hu).
         rewrite (coerce_args_length _ _ _ Hc). lia.
     + (* bundle *)
@@ -265,3 +265,85 @@ Section ClumpBound.
           -- right. lia.
   Qed.
 End ClumpBound.
+
+(* ---- the repaired prediction is defined on everything the builder accepts ---- *)
+Definition predicted (nc : bool) (a : arg) : Prop :=
+  forall d, build_pkt nc a = Ok d -> exists n, calc_pkt true a = Ok n.
+
+Lemma predicted_val : forall nc x t,
+  (forall l, x = AList l -> predicted nc x) -> coerce1 nc x = Ok t -> exists s, calc_val true x = Ok s.
+Proof.
+  intros nc x t IH Hc.
+  destruct x as [| b | z | w | s | b | lat tag | | l]; cbn [coerce1] in Hc; try discriminate Hc;
+    try (eexists; reflexivity).
+  specialize (IH l eq_refl). unfold predicted in IH.
+  destruct l as [| h tl]; [eexists; reflexivity |].
+  destruct h as [| | | | s | | lat tag | |]; try discriminate Hc.
+  - apply bind_ok in Hc as (d & Hd & _). destruct (IH d Hd) as (n & Hn).
+    cbn [calc_val]. rewrite Hn. eexists; reflexivity.
+  - destruct tl as [| e1 tl']; [discriminate Hc |]. destruct e1; try discriminate Hc.
+    apply bind_ok in Hc as (d & Hd & _). destruct (IH d Hd) as (n & Hn).
+    cbn [calc_val]. rewrite Hn. eexists; reflexivity.
+Qed.
+
+Lemma predicted_vals : forall nc args targs,
+  Forall (predicted nc) args -> coerce_args nc args = Ok targs -> exists v, calc_vals true args = Ok v.
+Proof.
+  intros nc args. induction args as [| x r IH]; intros targs HF Hc.
+  - eexists; reflexivity.
+  - cbn [coerce_args] in Hc. apply bind_ok in Hc as (t & Ht & Hc). apply bind_ok in Hc as (ts & Hts & _).
+    inversion HF as [| ? ? Hx Hr]; subst.
+    destruct (predicted_val nc x t (fun _ _ => Hx) Ht) as (s & Hs).
+    destruct (IH ts Hr Hts) as (v & Hv).
+    cbn [calc_vals]. rewrite Hs, Hv. eexists; reflexivity.
+Qed.
+
+Lemma predicted_elems : forall nc lat elems ds,
+  Forall (predicted nc) elems -> build_elems nc lat elems = Ok ds ->
+  exists n, calc_bndl true elems = Ok n /\ Forall (fun e => exists s, calc_elem true e = Ok s) elems.
+Proof.
+  intros nc lat elems. induction elems as [| e r IH]; intros ds HF Hb.
+  - eexists. split; [reflexivity | constructor].
+  - cbn [build_elems] in Hb. apply bind_ok in Hb as (d & Hd & Hb). apply bind_ok in Hb as (ds' & Hds & _).
+    inversion HF as [| ? ? He Hr]; subst.
+    destruct (IH ds' Hr Hds) as (n & Hn & HFr).
+    destruct (build_elem_shape _ _ _ _ Hd) as [Hbp Hshape].
+    destruct (He d Hbp) as (s & Hs).
+    assert (Hce : calc_elem true e = Ok s).
+    { destruct Hshape as [(addr & args & ->) | (sub & tag & es & -> & _)]; exact Hs. }
+    cbn [calc_bndl]. rewrite Hce, Hn. eexists. split; [reflexivity |].
+    constructor; [eexists; exact Hce | exact HFr].
+Qed.
+
+Theorem predicted_all : forall nc a, predicted nc a.
+Proof.
+  intros nc. apply arg_nested_ind.
+  - intros a Hleaf d Hb. destruct a; try discriminate Hb. exfalso. eapply Hleaf. reflexivity.
+  - intros l HF d Hb.
+    destruct l as [| h tl]; [discriminate Hb |].
+    inversion HF as [| ? ? _ Htl]; subst.
+    destruct h as [| | | | addr | | lat tag | |]; try discriminate Hb.
+    + rewrite build_pkt_msg in Hb. apply bind_ok in Hb as (targs & Hc & _).
+      destruct (predicted_vals nc tl targs Htl Hc) as (v & Hv).
+      rewrite calc_pkt_msg. cbn [negb andb]. rewrite Hv. eexists; reflexivity.
+    + rewrite build_pkt_bundle in Hb. apply bind_ok in Hb as (ds & Hds & _).
+      destruct (predicted_elems nc lat tl ds Htl Hds) as (n & Hn & _).
+      rewrite calc_pkt_bundle. eauto.
+Qed.
+
+Lemma Forall_predicted : forall nc l, Forall (predicted nc) l.
+Proof. intros nc l. apply Forall_forall. intros x _. apply predicted_all. Qed.
+
+(* ... and so is the clumping of any list of elements a bundle can be built from *)
+Lemma clump_defined : forall nc lat es ds size,
+  build_elems nc lat es = Ok ds -> exists cs, clump_bundle true size es = Ok cs.
+Proof.
+  intros nc lat es ds size Hb.
+  destruct (predicted_elems nc lat es ds (Forall_predicted nc es) Hb) as (_ & _ & HF).
+  unfold clump_bundle.
+  assert (Hs : exists sl, clump_sizes true es = Ok sl).
+  { clear Hb. induction es as [| e r IH]; [eexists; reflexivity |].
+    inversion HF as [| ? ? (s & Hs) Hr]; subst. destruct (IH Hr) as (sl & Hsl).
+    cbn [clump_sizes]. rewrite Hs, Hsl. eexists; reflexivity. }
+  destruct Hs as (sl & Hsl). rewrite Hsl. eexists; reflexivity.
+Qed.
